@@ -105,6 +105,8 @@ type Pkg struct {
 	Name    string   `json:"name"`
 	Decoys  []string `json:"decoys,omitempty"`
 	Anon    []string `json:"anon,omitempty"` // _ imports in injector files
+	AnonT   []string `json:"anont,omitempty"` // _ imports in the package's ordinary file (types.go): wire copies those into wire_gen.go too
+	NoInj   bool     `json:"noinj,omitempty"` // deliberately without injectors (a dependency of packages that have some)
 	NFiles  int      `json:"nfiles"`         // number of injector files
 	CopyFns int      `json:"copyfns,omitempty"`
 	Facade  bool     `json:"facade,omitempty"` // declares nothing but alias variables of other packages' sets: no wire import, no injectors
@@ -200,6 +202,14 @@ func Generate(r *rand.Rand, k Knobs) *Module {
 		}
 		p.NFiles = 1 + r.IntN(2)
 		p.CopyFns = r.IntN(3)
+		if r.IntN(3) == 0 {
+			p.AnonT = append(p.AnonT, anonPool[r.IntN(len(anonPool))])
+			if r.IntN(2) == 0 {
+				p.AnonT = append(p.AnonT, "container/list")
+			}
+		}
+		// a package without injectors that later packages depend on (never the last one)
+		p.NoInj = i+1 < k.NPkgs && r.IntN(6) == 0
 		m.Pkgs = append(m.Pkgs, p)
 	}
 	nameUsed := map[string]bool{}
@@ -256,6 +266,10 @@ func Generate(r *rand.Rand, k Knobs) *Module {
 				if e.Pkg == t.Pkg {
 					parents = append(parents, e.Idx)
 				}
+			}
+			if e.Kind == "struct" && (e.Src.Kind == "struct" || e.Src.Kind == "value") {
+				// an interface may also be bound to a struct built by wire.Struct (either form) or given as a wire.Value
+				concretes = append(concretes, e.Idx)
 			}
 		}
 		pickParams := func(max int) []Ref {
@@ -351,7 +365,7 @@ func Generate(r *rand.Rand, k Knobs) *Module {
 			t.Src.ConstID = 100 + idx
 		case "bind":
 			c := m.Types[concretes[r.IntN(len(concretes))]]
-			t.Src.Concrete = Ref{Idx: c.Idx, Ptr: c.Ptr}
+			t.Src.Concrete = m.formFor(r, c)
 		case "field":
 			par := m.Types[parents[r.IntN(len(parents))]]
 			t.Src.Parent = Ref{Idx: par.Idx, Ptr: par.Ptr}
@@ -444,7 +458,7 @@ func Generate(r *rand.Rand, k Knobs) *Module {
 	}
 	// injectors
 	for _, p := range m.Pkgs {
-		if p.Idx < m.Ext {
+		if p.Idx < m.Ext || p.NoInj {
 			continue // no injectors in the dependency module
 		}
 		for j := 0; j < k.InjPerPkg; j++ {
